@@ -7,7 +7,7 @@ use std::convert::TryInto;
 use serde_json::Value;
 
 use crate::error::Error;
-use crate::value::{Evaluated, Parsed};
+use crate::value::Evaluated;
 use crate::NULL;
 
 /// Valid types of variable keys
@@ -97,8 +97,9 @@ pub fn var(data: &Value, args: &Vec<&Value>) -> Result<Value, Error> {
     Ok(val.unwrap_or(if arg_count < 2 {
         NULL
     } else {
-        let _parsed_default = Parsed::from_value(args[1])?;
-        _parsed_default.evaluate(&data)?.into()
+        // Arguments arrive already evaluated: the default is inert data
+        // and must not be interpreted as a rule a second time.
+        args[1].clone()
     }))
 }
 
